@@ -35,14 +35,18 @@ RULE = ('case = one search-space description. Exhaustive part (same for every '
         'n <= 3 with every assignment of 6 representative sub-spaces, nesting '
         'depth <= 2) whose reference size is <= max_dnas (quick 6, thorough 64), '
         'plus all 30 single flat choices whatever their size (<= 64 members), plus '
-        '12 fixed descriptions with float / custom leaves; partitioned over the '
+        '12 fixed descriptions with float / custom leaves and the constant root '
+        'space; partitioned over the '
         'shards by index; followed by `random` seeded larger descriptions per '
         'shard (floats, custom points, depth <= 3). For each: full iteration vs '
         'the reference enumeration (set, order, count, strict increase, end), '
         'space_size, next_dna from rebuilt DNAs, first_dna + DNA.iter_dna, '
         'Sweeping, shape + validate of iterated DNAs, DNA() / validate / binding / '
         'from_numbers on reference members and on one-step corruptions (one per '
-        'class of corruption and kind of decision point), random_dna membership. '
+        'class of corruption and kind of decision point; extra children come as '
+        '1, 2 or 3 children at any position below leaves - constant candidates, '
+        'floats, custom points, the constant root - and below inner nodes), '
+        'random_dna membership. '
         'Non-trivial = at least 2 members and a multi-choice or a conditional '
         'sub-space; distinct by description.')
 REQUIRED_COUNTERS = ['iter_full', 'size_checks', 'lt_checks', 'next_checks',
@@ -80,6 +84,8 @@ def leaf_family():
         S.space(S.choice(1, [S.space(leaf(), one2), S.CONST])),
         S.space(S.choice(2, [S.CONST, S.space(leaf())], False, False)),
     ]
+  # the constant root: its only member is the empty DNA
+  out.append(S.space())
   return [S.relocate(d) for d in out]
 
 
@@ -204,12 +210,19 @@ def tree_src(node):
   return f'DNA({node.value!r}, [{", ".join(tree_src(c) for c in node.children)}])'
 
 
+EXTRA_COUNTS = (1, 2, 3)
+
+
 def corruptions(rng, desc, flat):
-  """(name, kind, tree) of every one-step corruption of a member, shuffled.
+  """(name, kind, tree, variant) of every one-step corruption of a member,
+  shuffled.
 
   kind = class of the decision point that owns the corrupted node (oneof,
-  manyof, float, custom) or `group` for a value-less node (root of a space with
-  several elements, the picks of a multi-choice)."""
+  manyof, float, custom), `group` for a value-less node with children (root of
+  a space with several elements, the picks of a multi-choice) or `constant`
+  for the root of a constant space.  variant = finer class of the same
+  (name, kind), e.g. how many children were added and whether the node was a
+  leaf; it selects what is tried and is not part of a key."""
   pts = G.walk(desc, flat)
   base = G.tree(desc, flat)
   out = []
@@ -219,7 +232,9 @@ def corruptions(rng, desc, flat):
     return t, nodes_of(t)
 
   def kind_of(n):
-    return 'group' if n.point is None else pts[n.point].kind.split('[')[0]
+    if n.point is None:
+      return 'group' if n.children else 'constant'
+    return pts[n.point].kind.split('[')[0]
 
   owner = {}
   all_nodes = nodes_of(base)
@@ -247,20 +262,29 @@ def corruptions(rng, desc, flat):
     for name, v in vals:
       t, ns = variant()
       ns[ni].value = v
-      out.append((name, knd, t))
-  # structure
+      out.append((name, knd, t, None))
+  # structure: k extra children (k = 1, 2, 3; one child alone may be absorbed
+  # by DNA normalisation) after, before or among the children of every node:
+  # leaves (constant candidates of single and multi choices, floats, custom
+  # points, the constant root) and inner nodes alike
   for ni, n in enumerate(all_nodes):
-    t, ns = variant()
-    ns[ni].children.append(G.Node(0, []))
-    out.append(('extra-child', kind_of(n), t))
+    for k in EXTRA_COUNTS:
+      t, ns = variant()
+      vals = rng.choice([[0] * k, list(range(k)), list(range(k, 0, -1))])
+      at = rng.choice([len(n.children), len(n.children), 0,
+                       rng.randint(0, len(n.children))])
+      ns[ni].children[at:at] = [G.Node(v, []) for v in vals]
+      out.append(('extra-child', kind_of(n), t,
+                  ('one' if k == 1 else 'several',
+                   'inner' if n.children else 'leaf')))
     if n.children:
       t, ns = variant()
       del ns[ni].children[rng.randrange(len(n.children))]
-      out.append(('dropped-child', kind_of(n), t))
+      out.append(('dropped-child', kind_of(n), t, None))
     if n.value is None and n.children:
       t, ns = variant()
       ns[ni].value = 0
-      out.append(('stray-value', 'group', t))
+      out.append(('stray-value', 'group', t, None))
   # sibling picks of one multi-choice
   groups = {}
   for pi, pt in enumerate(pts):
@@ -274,12 +298,12 @@ def corruptions(rng, desc, flat):
         na, nb = ns[owner[a]], ns[owner[b]]
         na.value, nb.value = nb.value, na.value
         na.children, nb.children = nb.children, na.children
-        out.append(('unsorted-picks', 'manyof', t))
+        out.append(('unsorted-picks', 'manyof', t, None))
       if e['distinct'] and pts[a].value != pts[b].value:
         t, ns = variant()
         na, nb = ns[owner[a]], ns[owner[b]]
         nb.value, nb.children = na.value, [G.copy_tree(c) for c in na.children]
-        out.append(('duplicated-pick', 'manyof', t))
+        out.append(('duplicated-pick', 'manyof', t, None))
   rng.shuffle(out)
   return out
 
@@ -359,7 +383,9 @@ def check_members(ctx, desc, spec, members, case):
 def check_nonmembers(ctx, rng, desc, spec, members, case, all_kinds=False):
   """validate / binding / from_numbers must reject one-step corruptions.
 
-  Per member one corruption of every (name, kind) is tried.  A corrupted tree
+  Per member one corruption of every (name, kind, variant) class is tried (the
+  variant, e.g. one / several extra children below a leaf / an inner node, is
+  not part of the key).  A corrupted tree
   that pg.DNA normalises into another shape is judged on the shape the DNA
   reports and keyed `reshaped:tree` (it is no longer the corruption applied).
   """
@@ -369,8 +395,9 @@ def check_nonmembers(ctx, rng, desc, spec, members, case, all_kinds=False):
   for m in members:
     seen_kinds = set()
     tried = 0
-    for name, knd, t in corruptions(rng, desc, m):
-      if (name, knd) in seen_kinds:
+    for name, knd, t, var in corruptions(rng, desc, m):
+      cls = (name, knd, var)
+      if cls in seen_kinds:
         continue
       if tried >= max_kinds:
         break
@@ -378,20 +405,23 @@ def check_nonmembers(ctx, rng, desc, spec, members, case, all_kinds=False):
         d = make_dna(t)
       except Exception:  # pylint: disable=broad-except
         c['corruption_not_constructible'] += 1
-        seen_kinds.add((name, knd))
+        seen_kinds.add(cls)
         continue
       shape = dna_shape(d)
       if G.tree_is_member(desc, shape):
         c['corruption_is_member'] += 1
         continue
-      seen_kinds.add((name, knd))
+      seen_kinds.add(cls)
       tried += 1
       key = (name, knd)
       if shape != t:
         c['corruption_reshaped'] += 1
         key = ('reshaped', 'tree')
       c['corruption:' + key[0]] += 1
+      if var is not None and key[0] == name:
+        c['corruption:%s:%s' % (name, '-'.join(var))] += 1
       ctx.seen('corruption_kinds', key)
+      ctx.seen('corruption_classes', (key, var))
       src = tree_src(t)
       origin = f'corruption {name} of member {G.nested(G.tree(desc, m))!r}'
       ok, _ = accepts(lambda: spec.validate(d))
